@@ -168,7 +168,24 @@ def _graph_case(fam, qname):
             "vertex_equals": lambda: [v.equals(w) for v, w in zip(verts, verts2)] + [verts[0].equals(verts[2])],
             "vertex_to_g2o": lambda: [v.to_g2o() for v in verts] if fam in ("SE2", "SE3") else [verts[0].to_g2o()],
             "edge_to_g2o": lambda: [e.to_g2o() for e in edges[:1] + edges[2:]] if fam in ("SE2", "SE3") else [edges[2].to_g2o()],
+            "graph_to_g2o": lambda: [export_graph()],
         }
+
+        def export_graph():
+            from .iokit import install_io
+
+            fs = install_io(P, g)
+            order = [id(v) for v in sub._vertices]
+            sub.to_g2o("x.g2o")
+            P.check("graph_to_g2o:order_kept", [id(v) for v in sub._vertices] == order and sub._edges == [edges2[0], edges2[2]])
+            return len(fs.files["x.g2o"].split("\n"))
+
+        sub = None
+        if qname == "graph_to_g2o":
+            # the exported graph: odometry + custom edge, vertices listed in NON-ascending id order; built before the
+            # snapshots are taken (constructing a Graph assigns gradient indices)
+            sub = g.Graph([edges2[0], edges2[2]], [verts2[1], verts2[0]])
+            graph2._vertices = sub._vertices
         query = queries[qname]
         before = snapshot(graph, verts, edges)
         before2 = snapshot(graph2, verts2, edges2)
@@ -176,7 +193,9 @@ def _graph_case(fam, qname):
         r2 = query()
         compare(P, "after", before, snapshot(graph, verts, edges))
         compare(P, "other_after", before2, snapshot(graph2, verts2, edges2))
-        if qname.endswith("to_g2o"):
+        if qname == "graph_to_g2o":
+            P.check("repeat:count", r1 == r2)
+        elif qname.endswith("to_g2o"):
             P.check("repeat:count", len(r1) == len(r2))
         else:
             same_result(P, "repeat", r1, r2)
@@ -252,13 +271,13 @@ def _optimize_real(fam):
     return fn
 
 
-def _optimize_free(max_iter):
+def _optimize_free(max_iter, fixed=(2,)):
     def fn(P, g):
         import numpy
 
         env = install_stubs(P, g)
         kinds, es = ["SE2", "R2", "SE2"], [(0, 1), (2, 1), (2, 0, 1)]
-        graph, verts, eobjs, ids = structure_graph(P, g, kinds, es, {2}, symbolic_ids=False, epoch_chi2=True)
+        graph, verts, eobjs, ids = structure_graph(P, g, kinds, es, set(fixed), symbolic_ids=False, epoch_chi2=True)
         keep = [(numpy.array(e.information, copy=True), numpy.array(e._err, copy=True), [numpy.array(j, copy=True) for j in e._jacs], list(e.vertex_ids)) for e in eobjs]
         flags = [v.fixed for v in verts]
         import warnings
@@ -330,10 +349,11 @@ def cases(tier):
                     continue  # calc_jacobians of the custom edge IS the numerical one
                 heavy = fam == "SE3"
                 out.append(Case("edge-%s-%s-%s" % (fam, ename, qname), _edge_case(fam, which, qname), timeout=10, old_timeout=20, validate=v if not heavy else 1, feas_timeout_ms=1000, val_tol=1e-3))
-        for qname in ["graph_chi2", "graph_gradient_hessian", "graph_equals", "edge_equals", "vertex_equals", "vertex_to_g2o", "edge_to_g2o"]:
+        for qname in ["graph_chi2", "graph_gradient_hessian", "graph_equals", "edge_equals", "vertex_equals", "vertex_to_g2o", "edge_to_g2o"] + (["graph_to_g2o"] if fam in ("SE2", "SE3") else []):
             out.append(Case("graph-%s-%s" % (fam, qname), _graph_case(fam, qname), timeout=10, old_timeout=20, validate=1, feas_timeout_ms=1000, val_tol=1e-3))
         out.append(Case("poseops-%s" % fam, _pose_ops(fam), timeout=10, old_timeout=20, validate=v, feas_timeout_ms=1000, val_tol=1e-3))
         out.append(Case("optimize-real-%s" % fam, _optimize_real(fam), timeout=10, old_timeout=20, validate=1, feas_timeout_ms=1000, val_tol=1e-3))
     for mi in (1, 2, 3):
         out.append(Case("optimize-free-it%d" % mi, _optimize_free(mi), timeout=10, validate=1, feas_timeout_ms=1500, val_tol=1e-3))
+    out.append(Case("optimize-free-nofixed-it1", _optimize_free(1, fixed=()), timeout=10, validate=1, feas_timeout_ms=1500, val_tol=1e-3))
     return out
